@@ -3,14 +3,17 @@ from lib.emit import emit_stream
 
 CHECK = Check(
     "C03",
-    streams=[emit_stream("c03", drv="c03")],
+    streams=[emit_stream("c03", drv="c03"),
+             # two units of this check's own (Gen/GenC03x.v), outside the sound fragment: the open finding nested_in_map_entry
+             emit_stream("c03x", drv="c03x", unitsdrv="c03xunits")],
     rule=("generated inspectors of the model's emit units x value variants (pointers nil/set, collections nil/empty/1/3 "
           "elements, boundary scalars) x every resolving path and the unknown-field / absent-key / index -1,len,len+1,huge / "
           "unparsable / nil-pointer / past-scalar variants x a rotation of assigned values (the element's own kind in value and "
           "pointer form, every other scalar family, decimal text, []byte) x {Set, SetWithBuffer}, through *T. Two lines per case: "
           "`set` (error + dump of the whole object; spec = the exact object when the path denotes an existing scalar/string/bytes "
           "element and the value converts) and `setframe` (the frame condition decided natively by the harness with reflect; "
-          "spec = frame=1 always). distinct = distinct input text, all non-trivial."),
+          "spec = frame=1 always). distinct = distinct input text, all non-trivial. Stream c03x: the same case shapes on two "
+          "own units map[string]Rec / struct{F map[int32]Rec} with Rec{N Pt; C int32} held by value (outside the sound fragment)."),
     assumptions=["assigned values: scalars, strings, non-nil []byte in value and pointer form; pointers to containers (the "
                  "value.(*T) replacement branch) are outside the modelled domain and never generated",
                  "rendered floats stay inside the exact-decimal domain; empty text is never assigned into a []byte element",
